@@ -118,8 +118,12 @@ def _typed(v, t=None):
     if t == "N" and v < 0:
         t = "I"
     if t == "N" and not (0 <= v < U64):
+        if QUIRKS and QUIRK_HIT:
+            return (v % U64, t)  # classification mode: follow the engine's 64-bit wrap-around downstream of a recorded quirk
         raise Overflow()
     if t == "I" and not (-I63 <= v < I63):
+        if QUIRKS and QUIRK_HIT:
+            return (((v + I63) % U64) - I63, t)  # (same: two's-complement wrap, only after a recorded quirk has already fired)
         raise Overflow()
     return (v, t)
 
